@@ -59,6 +59,8 @@ def open_sigs():
     global OPEN
     if OPEN is None:
         OPEN = core.open_signatures(PROPERTY)
+        # test knob for verifying a proposed repair on a scratch copy: signatures listed here are not tolerated
+        OPEN -= set(filter(None, os.environ.get('VERIF_C06_TREAT_FIXED', '').split(',')))
     return OPEN
 
 
